@@ -17,6 +17,9 @@
 #ifndef STEPS
 #define STEPS 8
 #endif
+#ifndef QLOG
+#define QLOG 3   /* log2 of the run-queue array size the scenario starts with */
+#endif
 fiber_t* fibs[NALL];
 uint64_t bypass[NALL];
 uint64_t runs[NALL];
@@ -52,7 +55,7 @@ void vm_init(void) {
   for (int q = 0; q < 2; q++) {
     wsd_work_stealing_deque_t* d = fiber_scheduler_thread_queues[q];
     wsd_circular_array_destroy(d->underlying_array);
-    d->underlying_array = wsd_circular_array_create(3);
+    d->underlying_array = wsd_circular_array_create(QLOG);
   }
   fiber_manager_t* m = fiber_manager_create(fiber_scheduler_for_thread(0));
   fiber_the_manager = m;
